@@ -194,6 +194,11 @@ def run(ctx, res):
                 "random metrics/user transform/tolerance, each glyph sampled on a jittered 9x9 grid + shape centres; "
                 "distinct = distinct case; non-trivial = >= 2 shapes")
     suite_placement(ctx, res, ctx.budget(1500, 20000))
+    # claim split (f): every affine the pipeline encodes goes through paint.transformed; a wrong encoding displaces a layer
+    from harness.props import C16
+    C16.suite_transformed(ctx, res, ctx.budget(2500, 30000))
+    C16.suite_linear(ctx, res, ctx.budget(400, 6000))
+    C16.suite_radial(ctx, res, ctx.budget(300, 5000))
     for c in nano.load_corpus(PID, "cases"):
         out = fontgen.build(c)
         if "err" not in out:
